@@ -328,6 +328,54 @@ def corr_gauss(ctx, B, sf):
         ctx.count(f"corr:gauss:{kind}", case, nt, sample=dict(kind=kind, n=n, mode=k))
 
 
+def corr_gauss_multi(ctx, B):
+    """GaussianModes.measure_dyne on SEVERAL modes (any order): two rounds with the model — first C + covmat exactly,
+    then the state update with the exact inverse computed here in rational arithmetic"""
+    from strawberryfields.backends.gaussianbackend.gaussiancircuit import GaussianModes
+    rng = ctx.rng
+    cases = []
+    for it in range(ctx.n(16, 160)):
+        n = rng.randint(2, 5)
+        k = rng.randint(2, min(n, 3))
+        modes = scrambled(rng, n, k)
+        N, M, mean = m6.rand_nm_state(rng, n)
+        sigma = m6.rand_cov(rng, 2 * k)
+        off = [m6.dy(rng, -6, 6, 4) for _ in range(2 * k)]
+        shots = rng.choice([1, 1, 2])
+        g = GaussianModes(n)
+        g.nmat, g.mmat, g.mean = N.copy(), M.copy(), mean.copy()
+        with m6.ScriptRNG(mvn_offset=off) as sr:
+            ret = g.measure_dyne(sigma.copy(), list(modes), shots=shots)
+        case = dict(kind="dyne_multi", n=n, modes=modes, N=m6.cmat(N), M=m6.cmat(M), mean=[m6.cx(z) for z in mean],
+                    sigma=sigma.tolist(), off=off, shots=shots)
+        ctx.count("corr:gauss:dyne_multi", case, n > k, sample=dict(kind="dyne_multi", n=n, modes=modes))
+        cases.append((case, g, sr.calls("multivariate_normal"), ret, _gs_req(n, N, M, mean), sigma, off, shots, modes))
+    if not cases:
+        return
+    first = ctx.lean([dict(op="meas.gaussRng", modes=c[8], sigma=m6.rmat(c[5]), **c[4]) for c in cases])
+    for (case, g, call, ret, base, sigma, off, shots, modes), r1 in zip(cases, first):
+        if isinstance(r1, dict) and "__error__" in r1:
+            ctx.disagree("Measure.gaussRngArgs (several modes)", case, r1, "model error")
+            continue
+        S = [[Fraction(x[0], x[1]) for x in row] for row in r1["rngCov"]]
+        W = [[m6.rat(x) for x in row] for row in m6.frac_inv(S)]
+
+        def chk(r, g=g, call=call, ret=ret, shots=shots):
+            bad = _gs_check(r, g, TOL)
+            if bad:
+                return bad
+            if len(call) != 1 or call[0]["size"] != shots:
+                return ("one call, size=shots", [c["size"] for c in call])
+            if not m6.close(call[0]["mean"], m6.unrvec(r["rngMean"]), 1e-9) or not m6.close(call[0]["cov"], m6.unrmat(r["rngCov"]), 1e-9):
+                return (dict(mean=r["rngMean"], cov=r["rngCov"]), dict(mean=call[0]["mean"].tolist(), cov=call[0]["cov"].tolist()))
+            vm = m6.unrvec(r["vmAll"])
+            if np.asarray(ret).shape != (shots, len(vm)) or not m6.close(np.asarray(ret)[0], vm, 1e-9):
+                return (vm.tolist(), np.asarray(ret).tolist())
+            return None
+        B.add(dict(op="meas.gaussPost", modes=modes, sigma=m6.rmat(sigma), vmoff=m6.rvec(off), W=W, **base),
+              "Measure.gaussPostSelect vs GaussianModes.measure_dyne (several modes)", case, chk)
+
+
 def _weights_from_model(comps, w0):
     """re-weighting with NumPy's exp/det on the model's quadratic forms and C + sigma"""
     rw = []
@@ -518,9 +566,15 @@ def corr_fock(ctx, B):
         i = rng.randrange(D ** k)
         c = Circuit(n, D, pure=pure)
         c._state, c._pure = np.array(st, dtype=np.complex128), pure
-        with m6.ScriptRNG(choice=lambda a, p, i=i: a[i]) as sr:
-            ret = c.measure_fock(list(measure))
         case = dict(kind="measure_fock", n=n, D=D, measure=measure, i=i, pure=pure)
+        try:
+            with m6.ScriptRNG(choice=lambda a, p, i=i: a[i]) as sr:
+                ret = c.measure_fock(list(measure))
+        except Exception as e:  # noqa: BLE001
+            if not (isinstance(e, ZeroDivisionError)):
+                ctx.corr_cases += 1
+                ctx.disagree("Measure.fockOutcome vs Circuit.measure_fock", case, "an outcome list", f"raised {type(e).__name__}: {e}")
+            continue
         ctx.count("corr:fock:outcome", case, k >= 2 and measure != sorted(measure), sample=case)
         B.add(dict(op="meas.fockOutcome", measure=measure, i=i, D=D, n=n), "Measure.fockOutcome vs Circuit.measure_fock", case,
               lambda r, ret=ret: None if np.asarray(ret).tolist() == [r["outcome"]] else (r["outcome"], np.asarray(ret).tolist()))
@@ -536,6 +590,199 @@ def corr_fock(ctx, B):
             B.add(dict(op="fock.apply", kind="projectResetPure" if pure else "projectResetMixed", D=D, n=n, modes=measure,
                        xs=xs, state=simcorr.flat(t), mat=[]), "FockTensor.projectReset vs ops.project_reset", dict(case, xs=xs),
                   lambda r, out=out: None if r == simcorr.flat(out) else ("model", "impl differs"))
+
+
+def corr_fock_dist(ctx, B):
+    """the probabilities `Circuit.measure_fock` hands to numpy.random.choice vs `Measure.fockDist` on integer-valued
+    density tensors (exact): which axes are traced, which diagonal entry sits at which flat position"""
+    from strawberryfields.backends.fockbackend.circuit import Circuit
+    from strawberryfields.backends.fockbackend import ops as fops
+    from lib import simcorr
+    rng, nprng = ctx.rng, ctx.nprng(17)
+    for it in range(ctx.n(40, 400)):
+        n = rng.randint(1, 3)
+        D = rng.choice([2, 3]) if n == 3 else rng.choice([2, 3, 4])
+        k = rng.randint(1, n)
+        measure = scrambled(rng, n, k)
+        if it % 3 == 0:
+            psi = simcorr.rand_int_tensor(nprng, (D,) * n, -2, 2)
+            if not np.any(psi):
+                psi[(0,) * n] = 1
+            st = fops.mix(psi, n)
+        else:
+            st = nprng.integers(0, 4, size=(D,) * (2 * n)) + 1j * nprng.integers(-3, 4, size=(D,) * (2 * n))
+            st = st.astype(np.complex128)
+        c = Circuit(n, D, pure=False)
+        c._state, c._pure = np.array(st, dtype=np.complex128), False
+        pick = rng.randrange(1000)
+
+        def chooser(a, p, pick=pick):
+            idx = [i for i in range(len(a)) if p[i] > 1e-12]
+            return a[idx[pick % len(idx)]] if idx else a[0]
+        case = dict(kind="fock_dist", n=n, D=D, measure=measure, state=simcorr.flat(st))
+        ctx.count("corr:fock:dist", case, n > k or measure != sorted(measure), sample=dict(n=n, D=D, measure=measure))
+        try:
+            with m6.ScriptRNG(choice=chooser) as sr:
+                c.measure_fock(list(measure))
+        except ZeroDivisionError:
+            ctx.tally("corr:fock:dist:zero")
+            continue
+        except Exception as e:  # noqa: BLE001
+            ctx.corr_cases += 1
+            ctx.disagree("Measure.fockDist vs Circuit.measure_fock", case, "a distribution", f"raised {type(e).__name__}: {e}")
+            continue
+        pv = sr.calls("choice")[0]["p"]
+
+        def chk(r, pv=pv):
+            d = np.array(r["dist"], dtype=float)
+            tot = d.sum()
+            if tot == 0:
+                return None
+            want = d / tot
+            return None if want.shape == pv.shape and np.max(np.abs(want - pv)) <= 1e-12 else (want.tolist(), pv.tolist())
+        B.add(dict(op="meas.fockDist", D=D, n=n, measure=measure, state=simcorr.flat(st)),
+              "Measure.fockDist vs Circuit.measure_fock (probabilities handed to choice)", case, chk)
+
+
+def _peak_factors(covs, means, ix, covmat, x):
+    """(pref_i, e_i) of every peak at the point x, NumPy's det/exp on the marginals + measurement covariance"""
+    out = []
+    for V, r in zip(covs, means):
+        S = V[np.ix_(ix, ix)] + covmat
+        d = x - r[ix]
+        out.append((1.0 / math.sqrt(np.linalg.det(2 * np.pi * S)), math.exp(-0.5 * d @ np.linalg.solve(S, d))))
+    return out
+
+
+class _GiveUp(Exception):
+    pass
+
+
+def corr_sampler(ctx, B):
+    """BosonicModes.measure_dyne on multi-peak states (negative weights included) with the generator scripted: peak
+    choice probabilities, proposal parameters, every accept / reject decision of the rejection loop, and the state update
+    for the accepted point, against Measure.{ubIndices, ubWeightsProb, probDistVal, probUpbnd, accept, bosonicDyneComp}"""
+    rng = ctx.rng
+    for it in range(ctx.n(24, 240)):
+        n = rng.randint(1, 3)
+        nc = rng.randint(2, 4)
+        covs = np.array([m6.rand_cov(rng, 2 * n) for _ in range(nc)])
+        means = np.array([[m6.dy(rng, -6, 6, 4) for _ in range(2 * n)] for _ in range(nc)])
+        w0 = np.array([rng.randint(1, 6) for _ in range(nc)], dtype=float)
+        if rng.random() < 0.7:
+            j = rng.randrange(1, nc)
+            w0[j] = -w0[j] / 2            # a negative-weight peak (cat / Fock-like states)
+        w0 = w0 / w0.sum()
+        mode = rng.randrange(n)
+        covmat = m6.rand_cov(rng, 2) if it % 2 else np.eye(2)
+        ix = [2 * mode, 2 * mode + 1]
+        offs = [np.array([m6.dy(rng, -8, 8, 4), m6.dy(rng, -8, 8, 4)]) for _ in range(4)]
+        us = [rng.choice([0.995, 0.9, 0.5]), rng.choice([0.95, 0.45]), 0.0]
+        picks = [rng.randrange(8) for _ in range(8)]
+        case = dict(kind="sampler", n=n, mode=mode, covs=covs.tolist(), means=means.tolist(), weights=w0.tolist(),
+                    covmat=covmat.tolist(), offs=[o.tolist() for o in offs], us=us, picks=picks)
+        ctx.count("corr:bosonic:sampler", case, True, sample=dict(n=n, mode=mode, nc=nc, weights=w0.tolist()))
+        sampler_one(ctx, B, case)
+
+
+def sampler_one(ctx, B, case):
+    """one scripted run of the rejection sampler (also the replay entry point); B = None skips the model comparison"""
+    from strawberryfields.backends.bosonicbackend.bosoniccircuit import BosonicModes
+    n, mode = case["n"], case["mode"]
+    covs, means, w0 = np.array(case["covs"]), np.array(case["means"]), np.array(case["weights"])
+    covmat, offs, us, picks = np.array(case["covmat"]), [np.array(o) for o in case["offs"]], case["us"], case["picks"]
+    ix = [2 * mode, 2 * mode + 1]
+    counter = dict(k=0)
+    b = BosonicModes(n)
+    b.weights, b.means, b.covs = w0.astype(complex), means.astype(complex), covs.astype(complex)
+    counter = dict(k=0)
+
+    def choose(a, p, picks=picks, counter=counter):
+        v = a[picks[counter["k"] % len(picks)] % len(a)]
+        return v
+
+    def mvn(mean, cov, offs=offs, counter=counter):
+        if counter["k"] >= 10:
+            raise _GiveUp()                  # the scripted points never reach positive target density
+        v = mean + offs[counter["k"] % len(offs)]
+        counter["k"] += 1
+        return v
+    sr = m6.ScriptRNG(choice=choose, mvn=mvn, random=lambda k, us=us: us[min(k, len(us) - 1)])
+    try:
+        with sr:
+            ret = b.measure_dyne(covmat.copy(), [mode], shots=1)
+    except _GiveUp:
+        ctx.tally("sampler:gave-up")
+        return
+    except Exception as e:  # noqa: BLE001
+        ctx.corr_cases += 1
+        ctx.disagree("Measure.accept vs BosonicModes.measure_dyne", case, "a sample", f"raised {type(e).__name__}: {e}")
+        return
+    ch, mv, rn = sr.calls("choice"), sr.calls("multivariate_normal"), sr.calls("random")
+    if not (len(ch) == len(mv) == len(rn)) or len(mv) > 12:
+        ctx.corr_cases += 1
+        ctx.disagree("Measure.accept vs BosonicModes.measure_dyne", case, "one choice/mvn/random per iteration",
+                     [len(ch), len(mv), len(rn)])
+        return
+    total = len(mv)
+    ctx.tally(f"sampler:iterations={min(total, 4)}")
+    for k in range(total):
+        peak = ch[k]["a"][picks[k % len(picks)] % len(ch[k]["a"])]
+        x = mv[k]["mean"] + offs[k % len(offs)]
+        # proposal = the chosen peak's marginal + measurement covariance
+        if not (np.allclose(mv[k]["mean"], means[peak][ix], atol=1e-12) and np.allclose(mv[k]["cov"], covs[peak][np.ix_(ix, ix)] + covmat, atol=1e-12)):
+            ctx.corr_cases += 1
+            ctx.disagree("proposal parameters of BosonicModes.measure_dyne", case,
+                         dict(mean=means[peak][ix].tolist(), cov=(covs[peak][np.ix_(ix, ix)] + covmat).tolist()),
+                         dict(mean=mv[k]["mean"].tolist(), cov=mv[k]["cov"].tolist()))
+            break
+        fac = _peak_factors(covs, means, ix, covmat, x)
+        u = us[min(k, len(us) - 1)]
+        pd = sum(w * pf * e for w, (pf, e) in zip(w0, fac))
+        ub = sum(abs(w) * pf * e for w, (pf, e) in zip(w0, fac) if not w < 0)
+        if abs(u * ub - pd) < 1e-9 * max(ub, 1e-300):
+            continue                                  # too close to the threshold to compare float with exact
+        observed = (k == total - 1)
+        # property-level: with proposal density envelope/Z the outcome is Born-distributed iff a uniform u is accepted
+        # exactly when u < target/envelope (independent evaluation of both densities at the proposed point)
+        ctx.oracle_cases += 1
+        if observed != (u * ub < pd):
+            ctx.fail("sampler-born:accept-test",
+                     f"bosonic measure_dyne, mode {mode} of {n}, weights {w0.tolist()}: proposed point {x.tolist()} with uniform draw "
+                     f"{u} was {'accepted' if observed else 'rejected'} although target density = {pd:.6g}, envelope = {ub:.6g} "
+                     f"(ratio {pd / ub:.6g}): accepted samples are not Born-distributed", dict(kind="sampler", case=case))
+
+        def chk(r, ck=ch[k], observed=observed, w0=w0):
+            if list(ck["a"]) != r["ubInd"]:
+                return (r["ubInd"], list(ck["a"]))
+            mp = np.array([m6.unrat(x_) for x_ in r["ubProb"]])
+            if not m6.close(ck["p"], mp, 1e-12):
+                return (mp.tolist(), ck["p"].tolist())
+            if bool(r["accept"]) != observed:
+                return (dict(accept=r["accept"], p=m6.unrat(r["p"]), ub=m6.unrat(r["ub"])), dict(accepted=observed))
+            return None
+        if B is not None:
+            B.add(dict(op="meas.sampler", ws=m6.rvec(w0), u=m6.rat(u),
+                       peaks=[[m6.rat(float(w)), m6.rat(pf), m6.rat(e)] for w, (pf, e) in zip(w0, fac)]),
+                  "Measure.{ubIndices, ubWeightsProb, accept} vs BosonicModes.measure_dyne (rejection loop)", dict(case, iteration=k), chk)
+    # state update for the accepted point
+    if n > 1 and B is not None:
+        vm = np.asarray(ret)[0]
+
+        def chk2(r, b=b, w0=w0):
+            comps = r["comps"]
+            mc = np.array([m6.unrmat(c["cov"]) for c in comps])
+            mm = np.array([m6.unrvec(c["mean"]) for c in comps])
+            wm = _weights_from_model(comps, w0)
+            keep = np.abs(wm) > 0
+            if not m6.close(b.covs, mc[keep], 1e-8) or not m6.close(b.means, mm[keep], 1e-8) or not m6.close(b.weights, wm[keep], 1e-8):
+                return (dict(weights=[complex(x).real for x in wm]), dict(weights=[complex(x).real for x in b.weights]))
+            return None
+        B.add(dict(op="meas.bosonicPost", sigma=m6.rmat(covmat), vm=m6.rvec(vm), covs=[m6.rmat(V) for V in covs],
+                   means=[m6.rvec(r) for r in means], modes=[mode]),
+              "Measure.bosonicDyneComp vs BosonicModes.measure_dyne (accepted sample)", case, chk2)
+
+
 
 
 class _Stub:
@@ -568,25 +815,42 @@ def scrambled(rng, n, k):
     return regs
 
 
-def gen_meas_program(rng, n):
-    """a program of gates and several measurement commands (multi-mode in scrambled order, repeated modes)"""
+def gen_meas_program(rng, n, holes=False):
+    """a program of gates and several measurement commands (multi-mode in scrambled order, repeated modes); with
+    `holes`, a mode is deleted first and modes created later are measured too"""
     ops = []
+    live = list(range(n))
+    if holes and n >= 3:
+        d = rng.sample(range(n - 1), rng.choice([1, 1, 2]))
+        ops.append(dict(cls="Del", regs=d, pars=[]))
+        live = [i for i in live if i not in d]
+        if rng.random() < 0.6:
+            k = rng.randint(1, 2)
+            ops.append(dict(cls="New", regs=list(range(n, n + k)), pars=[]))
+            live += list(range(n, n + k))
+        return dict(n=n, ops=ops + _meas_cmds(rng, live), live=live)
+    return dict(n=n, ops=_meas_cmds(rng, live), live=live)
+
+
+def _meas_cmds(rng, live):
+    ops = []
+    pick = lambda k: [live[i] for i in scrambled(rng, len(live), k)]
     for _ in range(rng.randint(1, 4)):
         u = rng.random()
         if u < 0.55:
-            regs = scrambled(rng, n, rng.randint(1, min(n, 3)))
-            ops.append(dict(cls=rng.choice(["MeasureFock", "MeasureFock", "MeasureThreshold"]), regs=regs, pars=[]))
+            ops.append(dict(cls=rng.choice(["MeasureFock", "MeasureFock", "MeasureThreshold"]),
+                            regs=pick(rng.randint(1, min(len(live), 3))), pars=[]))
         elif u < 0.8:
-            ops.append(dict(cls="MeasureHomodyne", regs=[rng.randrange(n)], pars=[rng.choice([0.0, 0.5])]))
+            ops.append(dict(cls="MeasureHomodyne", regs=[rng.choice(live)], pars=[rng.choice([0.0, 0.5])]))
         else:
-            ops.append(dict(cls="MeasureHeterodyne", regs=[rng.randrange(n)], pars=[]))
+            ops.append(dict(cls="MeasureHeterodyne", regs=[rng.choice(live)], pars=[]))
         if rng.random() < 0.4:
-            ops.append(dict(cls="Rgate", regs=[rng.randrange(n)], pars=[0.25]))
-    return dict(n=n, ops=ops)
+            ops.append(dict(cls="Rgate", regs=[rng.choice(live)], pars=[0.25]))
+    return ops
 
 
-def run_stubbed(sf, spec, shots, backend="gaussian"):
-    prog, _ = progs.build(spec)
+def run_stubbed(sf, spec, shots, backend="gaussian", shared=False):
+    prog, _ = progs.build(spec, op_cache={} if shared else None)
     eng = sf.Engine(backend, backend_options=dict(cutoff_dim=3) if backend == "fock" else {})
     stub = _Stub()
     eng._init_backend(prog.init_num_subsystems) if False else None
@@ -612,13 +876,13 @@ def layout_expect(calls):
     return samples, allv, latest
 
 
-def check_layout(ctx, sf, spec, shots, backend, B=None):
-    res, stub, regvals = run_stubbed(sf, spec, shots, backend)
+def check_layout(ctx, sf, spec, shots, backend, B=None, shared=False):
+    res, stub, regvals = run_stubbed(sf, spec, shots, backend, shared=shared)
     calls = stub.calls
     samples = np.asarray(res.samples)
     sd = {int(k): [np.asarray(a).tolist() for a in v] for k, v in (res.samples_dict or {}).items()}
     exp_s, exp_all, latest = layout_expect(calls)
-    rp = dict(kind="layout", spec=spec, shots=shots, backend=backend)
+    rp = dict(kind="layout", spec=spec, shots=shots, backend=backend, shared=shared)
     ctx.oracle_cases += 1
     got = np.real(samples).tolist() if samples.size else []
     if calls and (samples.shape != (shots, len(latest)) or got != exp_s):
@@ -643,10 +907,17 @@ def check_layout(ctx, sf, spec, shots, backend, B=None):
 
 def corr_engine(ctx, B, sf):
     rng = ctx.rng
-    for it in range(ctx.n(50, 500)):
-        n = rng.randint(2, 5)
-        spec = gen_meas_program(rng, n)
+    for it in range(ctx.n(60, 600)):
         backend = rng.choice(["gaussian", "gaussian", "fock", "bosonic"])
+        big = backend == "gaussian" and it % 4 == 0         # multi-digit mode indices: 10 sorts after 2
+        holes = backend in ("gaussian", "fock") and it % 3 == 0
+        n = rng.randint(11, 13) if big else rng.randint(2, 5) if not holes else rng.randint(3, 5)
+        spec = gen_meas_program(rng, n, holes=holes)
+        if big:                                              # make sure a two-digit and a one-digit index meet in one command
+            lv = spec["live"]
+            spec["ops"].append(dict(cls="MeasureFock", pars=[], regs=[rng.choice([m for m in lv if m >= 10]),
+                                                                      rng.choice([m for m in lv if 2 <= m <= 9])]))
+        ctx.tally("layout:holes" if holes else "layout:contiguous")
         shots = rng.choice([1, 1, 2, 4]) if backend == "gaussian" else 1
         if backend == "bosonic":
             for o in spec["ops"]:
@@ -658,11 +929,15 @@ def corr_engine(ctx, B, sf):
         meas = [o for o in spec["ops"] if progs.category(o["cls"]) == "meas"]
         nt = any(o["regs"] != sorted(o["regs"]) for o in meas) or len(meas) >= 2
         ctx.count(f"layout:{backend}", dict(spec=spec, shots=shots), nt, sample=dict(spec=spec, shots=shots, backend=backend))
-        check_layout(ctx, sf, spec, shots, backend, B if ctx.proof_ok else None)
+        if it % 5 == 0:                                      # the same measurement objects shared by the commands
+            shared = True
+        else:
+            shared = False
+        check_layout(ctx, sf, spec, shots, backend, B if ctx.proof_ok else None, shared=shared)
     # _combine_and_sort_samples directly (dictionary in scrambled insertion order)
     eng = sf.Engine("gaussian")
     for it in range(ctx.n(30, 300)):
-        modes = rng.sample(range(8), rng.randint(1, 5))
+        modes = rng.sample(range(14), rng.randint(1, 5))
         shots = rng.randint(1, 3)
         d, evs = {}, []
         for t in range(rng.randint(1, 2)):
@@ -752,6 +1027,8 @@ def oracle_dyne_case(ctx, sf, case):
         op = _meas_op("heterodyne", m, select=al)
     spec = dict(n=n, ops=case["prefix"] + [op])
     want = refc.alpha_N_M()
+    if hasattr(ref, "active") and ref.active != list(range(ref.n)):
+        want = sim.restrict_moments(want, ref.active)      # register with holes: the state lists the live modes, ascending
     rp = dict(kind="dyne", case=case)
     ctx.oracle_cases += 1
     script = m6.ScriptRNG()           # the p-quadrature draw of the Gaussian post_select_homodyne: its mean
@@ -798,6 +1075,36 @@ def gen_dyne_case(rng, backend, kind):
         case.update(outcome=[round(float(mu[0]) / 2 + rng.uniform(-0.5, 0.5), 3), round(float(mu[1]) / 2 + rng.uniform(-0.5, 0.5), 3)])
     if backend == "fock":
         case["cutoff"] = 10 if n == 3 else 12
+    return case
+
+
+def gen_holes_case(rng, backend, kind):
+    """register with a hole (and possibly a late mode): subsystem index != position in the simulator"""
+    n = 3 if backend == "fock" else rng.randint(3, 4)
+    ops_ = _prefix(rng, n, mixed=(backend != "fock"), scale=0.7 if backend == "fock" else 1.0)
+    d = rng.randrange(n - 1) if rng.random() < 0.7 else rng.randrange(n)      # mostly a hole *below* other modes
+    ops_.append(dict(cls="Del", regs=[d], pars=[]))
+    alive = [i for i in range(n) if i != d]
+    if rng.random() < 0.6:
+        ops_.append(dict(cls="New", regs=[n], pars=[]))
+        ops_.append(dict(cls="Sgate", regs=[n], pars=[round(rng.uniform(0.1, 0.3), 3), sim.angle(rng)]))
+        a = rng.choice(alive)
+        ops_.append(dict(cls="BSgate", regs=rng.choice([[n, a], [a, n]]), pars=[round(rng.uniform(0.4, 1.1), 3), sim.angle(rng)]))
+        alive.append(n)
+    above = [i for i in alive if i > d]
+    m = rng.choice(above) if above and rng.random() < 0.8 else rng.choice(alive)
+    hbar = rng.choice([2.0, 1.0])
+    ref = sim.reference(dict(n=n, ops=ops_), hbar)
+    mu, V = m6.ref_marginal(ref, [m])
+    case = dict(n=n, mode=m, kind=kind, hbar=hbar, backend=backend, prefix=ops_, holes=True)
+    if kind == "homodyne":
+        phi = rng.choice([0.0, round(rng.uniform(-3.1, 3.1), 3)])
+        u = np.array([math.cos(phi), math.sin(phi)])
+        case.update(phi=phi, outcome=round(float(u @ mu) + rng.uniform(-1.0, 1.0) * math.sqrt(float(u @ V @ u)), 3))
+    else:
+        case.update(outcome=[round(float(mu[0]) / 2 + rng.uniform(-0.4, 0.4), 3), round(float(mu[1]) / 2 + rng.uniform(-0.4, 0.4), 3)])
+    if backend == "fock":
+        case["cutoff"] = 9
     return case
 
 
@@ -896,21 +1203,27 @@ def oracle_fock_case(ctx, sf, case):
     """MeasureFock on the Fock back end, measured modes in any order: with `select`, the post state is the
     projection on exactly those photon numbers; without, the generator is scripted: the probability with which the
     returned outcome was drawn is its Born probability, and the post state is the projection on the returned outcome"""
-    n, D, regs, pure = case["n"], case["cutoff"], case["regs"], case["pure"]
+    n, D, pure = case["n"], case["cutoff"], case["pure"]
     pre = dict(n=n, ops=case["prefix"])
     _, rho0, _ = _fock_state_of(sf, pre, D, pure)
+    # register with holes: the state object lists the live modes in ascending order
+    alive = [m for m in range(n) if m not in case.get("deleted", [])]
+    posn = {m: alive.index(m) for m in alive}
+    true_regs = case["regs"]
+    regs = [posn[m] for m in true_regs]            # positions in the returned state, used by the reference projection
+    n = len(alive)
     rp = dict(kind="fock", case=case)
     ctx.oracle_cases += 1
     if case.get("select") is not None:
         sel = case["select"]
         want, p = m6.fock_project(rho0, n, dict(zip(regs, sel)))
-        spec = dict(n=n, ops=case["prefix"] + [dict(cls="MeasureFock", regs=regs, pars=[], select=sel)])
+        spec = dict(n=case["n"], ops=case["prefix"] + [dict(cls="MeasureFock", regs=true_regs, pars=[], select=sel)])
         if p < 1e-9:
             return
         res, rho1, _ = _fock_state_of(sf, spec, D, pure)
         outcome = dict(zip(regs, sel))
     else:
-        spec = dict(n=n, ops=case["prefix"] + [dict(cls="MeasureFock", regs=regs, pars=[])])
+        spec = dict(n=case["n"], ops=case["prefix"] + [dict(cls="MeasureFock", regs=true_regs, pars=[])])
         pick = case["pick"]
 
         def chooser(a, p, pick=pick):
@@ -923,7 +1236,7 @@ def oracle_fock_case(ctx, sf, case):
             ctx.fail("fock-rng:calls", f"{len(calls)} calls of numpy.random.choice for one MeasureFock", rp)
             return
         # returned outcome per mode, read from samples_dict
-        outcome = {m: int(np.real(res.samples_dict[m][-1][0])) for m in regs}
+        outcome = {posn[m]: int(np.real(res.samples_dict[m][-1][0])) for m in true_regs}
         want, p = m6.fock_project(rho0, n, outcome)
         pvec = calls[0]["p"]
         drawn = calls[0]["a"].index(chooser(calls[0]["a"], pvec))
@@ -967,6 +1280,12 @@ def gen_fock_case(rng, selected):
     if not pure:
         ops_.append(dict(cls="LossChannel", regs=[rng.randrange(n)], pars=[0.7]))
     case = dict(n=n, cutoff=D, regs=regs, pure=pure, prefix=ops_)
+    if n >= 3 and rng.random() < 0.35:           # delete a mode that is not the highest: later indices != positions
+        d = rng.randrange(n - 1)
+        case["deleted"] = [d]
+        case["prefix"] = ops_ + [dict(cls="Del", regs=[d], pars=[])]
+        case["regs"] = [m for m in regs if m != d] or [n - 1]
+        regs = case["regs"]
     if selected:
         case["select"] = [rng.randint(0, 2) for _ in regs]
     else:
@@ -1088,31 +1407,56 @@ def gen_threshold_case(rng, backend):
     return case
 
 
-def oracle_fock_layout(ctx, sf, rng):
-    """deterministic end-to-end layout check: distinct Fock states per mode, several MeasureFock commands in scrambled order"""
-    n = rng.randint(2, 4)
-    ks = [rng.randint(0, 3) for _ in range(n)]
-    ops_ = [dict(cls="Fock", regs=[m], pars=[ks[m]]) for m in range(n)]
-    modes = list(range(n))
-    rng.shuffle(modes)
-    cut = rng.randint(1, n)
-    groups = [modes[:cut], modes[cut:]] if cut < n else [modes]
-    for g in groups:
-        ops_.append(dict(cls="MeasureFock", regs=g, pars=[]))
-    spec = dict(n=n, ops=ops_)
+def oracle_fock_layout(ctx, sf, rng, spec=None):
+    """deterministic end-to-end layout check: distinct Fock states per mode, several MeasureFock commands in scrambled
+    order; half of the runs with dark counts (every command its own list, the Poisson generator scripted)"""
+    if spec is None:
+        n = rng.randint(2, 4)
+        ks = [rng.randint(0, 3) for _ in range(n)]
+        ops_ = [dict(cls="Fock", regs=[m], pars=[ks[m]]) for m in range(n)]
+        modes = list(range(n))
+        rng.shuffle(modes)
+        cut = rng.randint(1, n)
+        groups = [modes[:cut], modes[cut:]] if cut < n else [modes]
+        dark = rng.random() < 0.5
+        for g in groups:
+            op = dict(cls="MeasureFock", regs=g, pars=[])
+            if dark:
+                op["kw"] = dict(dark_counts=[round(rng.uniform(0.1, 2.0), 2) for _ in g])
+            ops_.append(op)
+        spec = dict(n=n, ops=ops_)
+    n = spec["n"]
+    ks = [o["pars"][0] for o in spec["ops"] if o["cls"] == "Fock"]
+    cmds = [o for o in spec["ops"] if o["cls"] == "MeasureFock"]
+    groups = [o["regs"] for o in cmds]
     ctx.oracle_cases += 1
     rp = dict(kind="focklayout", spec=spec)
+    script = m6.ScriptRNG(poisson=lambda lam, size: np.array([[3 + j for j in range(size[-1])] for _ in range(size[0])]))
     try:
-        res, _, eng = _fock_state_of(sf, spec, 5)
+        res, _, eng = _fock_state_of(sf, spec, 8, script=script)
     except SFRaised as e:
         ctx.fail("fock-measure:raises", f"Fock states {ks} measured by MeasureFock on {groups}: {e}", rp)
         return
-    if np.asarray(res.samples).tolist() != [ks]:
-        ctx.fail("samples-layout:rows-columns", f"Fock states {ks} measured by MeasureFock on {groups}: Result.samples = "
-                 f"{np.asarray(res.samples).tolist()}", rp)
+    exp = list(ks)
+    calls = script.calls("poisson")
+    want_calls = [([float(x) for x in o["kw"]["dark_counts"]], (1, len(o["regs"]))) for o in cmds
+                  if o.get("kw", {}).get("dark_counts") is not None]
+    for o in cmds:
+        if o.get("kw", {}).get("dark_counts") is not None:
+            for j, m in enumerate(o["regs"]):
+                exp[m] += 3 + j
+    got_calls = [([float(x) for x in np.atleast_1d(c["lam"])], tuple(int(z) for z in c["size"]) if c["size"] is not None else None)
+                 for c in calls]
+    if sorted(map(repr, got_calls)) != sorted(map(repr, [(list(l), sz) for l, sz in want_calls])):
+        ctx.fail("dark-counts:rng-args", f"MeasureFock commands {[(o['regs'], o.get('kw')) for o in cmds]}: Poisson generator called with "
+                 f"{got_calls}, expected rates/shapes {want_calls}", rp)
+    if np.asarray(res.samples).tolist() != [exp]:
+        ctx.fail("samples-layout:rows-columns", f"Fock states {ks} measured by MeasureFock on {groups} "
+                 f"(dark counts {[o.get('kw') for o in cmds]}, scripted Poisson 3+column): Result.samples = "
+                 f"{np.asarray(res.samples).tolist()}, expected {[exp]}", rp)
     vals = [int(np.asarray(eng.run_progs[-1].reg_refs[m].val).ravel()[0]) for m in range(n)]
-    if vals != ks:
-        ctx.fail("samples-layout:regref-val", f"Fock states {ks} measured on {groups}: RegRef values {vals}", rp)
+    if vals != exp:
+        ctx.fail("samples-layout:regref-val", f"Fock states {ks} measured on {groups}: RegRef values {vals}, expected {exp}", rp)
 
 
 def gen_sample_case(rng, backend, kind):
@@ -1134,8 +1478,258 @@ def gen_cat_case(rng):
     return case
 
 
+
+# ------------------------------------------------------------------ shared measurement objects, options in later commands
+
+def _run_prog(sf, prog, backend, hbar, cutoff=None, script=None, pure=True):
+    with m6.hbar_set(sf, hbar):
+        eng = sf.Engine(backend, backend_options=dict(cutoff_dim=cutoff, pure=pure) if backend == "fock" else {})
+        try:
+            if script is not None:
+                with script:
+                    res = eng.run(prog)
+            else:
+                res = eng.run(prog)
+        except NotImplementedError:
+            raise
+        except Exception as e:  # noqa: BLE001
+            raise SFRaised(e, backend)
+        return res, eng
+
+
+def _snapshot_ops(prog):
+    return [(id(c.op), type(c.op).__name__, copy.deepcopy(list(c.op.p)), copy.deepcopy(getattr(c.op, "select", None)),
+             copy.deepcopy(getattr(c.op, "dark_counts", None)), [r.ind for r in c.reg]) for c in prog.circuit]
+
+
+def oracle_shared_case(ctx, sf, case):
+    """ONE measurement object (same select) applied to several modes of a program and re-used in a second program with
+    another input state; a second object with the same angle but another select in between.  Every application must
+    condition on its own mode with its own select; the user's objects must come back unchanged."""
+    backend, hbar, n = case["backend"], case["hbar"], case["n"]
+    cache = {}
+    rp = dict(kind="shared", case=case)
+    ctx.oracle_cases += 1
+    sc = math.sqrt(hbar / 2)
+    for which, prefix in enumerate(case["prefixes"]):
+        ops_ = list(prefix)
+        for (m, phi, out2) in case["meas"]:
+            ops_.append(dict(cls="MeasureHomodyne", regs=[m], pars=[phi], select=out2 * sc))
+        spec = dict(n=n, ops=ops_)
+        with m6.hbar_set(sf, hbar):
+            prog, _ = progs.build(spec, op_cache=cache)
+        before = _snapshot_ops(prog)
+        res, eng = _run_prog(sf, prog, backend, hbar, script=m6.ScriptRNG())
+        with m6.hbar_set(sf, hbar):
+            got = _moments(sf, res.state, backend, hbar)
+        after = _snapshot_ops(prog)
+        if before != after:
+            ctx.fail("shared-op:mutated", f"{backend}: running a program changed the user's measurement objects: {before} -> {after}", rp)
+            return
+        ref = sim.reference(dict(n=n, ops=prefix), hbar)
+        for (m, phi, out2) in case["meas"]:
+            ref = m6.ref_condition(ref, m, "homodyne", out2, phi)
+        d = sim.moment_dist(got, ref.alpha_N_M())
+        if d > 5e-6:
+            ctx.fail(f"shared-op:conditional:{backend}",
+                     f"{backend}: program {which} applying shared MeasureHomodyne objects {case['meas']} (mode, phi, outcome): state "
+                     f"differs from the sequentially conditioned state by {d:.3g}", rp)
+        exp = {}
+        for (m, phi, out2) in case["meas"]:
+            exp[m] = out2 * sc
+        row = [exp[m] for m in sorted(exp)]
+        smp = np.asarray(res.samples)
+        if smp.shape != (1, len(row)) or not np.allclose(smp[0], row, atol=1e-9):
+            ctx.fail(f"shared-op:samples:{backend}", f"{backend}: samples {smp.tolist()} for post-selected values per mode {exp}", rp)
+
+
+def gen_shared_case(rng, backend):
+    n = rng.randint(3, 4)
+    hbar = rng.choice([2.0, 1.0])
+    prefixes = [_prefix(rng, n), _prefix(rng, n)]
+    a, b, c = rng.sample(range(n), 3)
+    phi = round(rng.uniform(-1.5, 1.5), 3)
+    o1, o2 = round(rng.uniform(-0.6, 0.6), 3), round(rng.uniform(-0.6, 0.6), 3)
+    # (a, phi, o1) and (c, phi, o1) share one object; (b, phi, o2) has the same angle but another select
+    return dict(backend=backend, hbar=hbar, n=n, prefixes=prefixes, meas=[(a, phi, o1), (b, phi, o2), (c, phi, o1)])
+
+
+def oracle_fock_shared_case(ctx, sf, case):
+    """MeasureFock(select=...) objects shared between commands and programs, a different select in the second command"""
+    n, D = case["n"], case["cutoff"]
+    cache = {}
+    rp = dict(kind="fockshared", case=case)
+    ctx.oracle_cases += 1
+    for which, prefix in enumerate(case["prefixes"]):
+        _, rho0, _ = _fock_state_of(sf, dict(n=n, ops=prefix), D, True)
+        ops_ = list(prefix)
+        want, ptot, outcome = rho0, 1.0, {}
+        for regs, sel in case["meas"]:
+            ops_.append(dict(cls="MeasureFock", regs=regs, pars=[], select=sel))
+            want, p = m6.fock_project(want, n, dict(zip(regs, sel)))
+            ptot *= p
+            outcome.update(dict(zip(regs, sel)))
+        if ptot < 1e-7:
+            ctx.tally("fockshared:improbable")
+            continue
+        prog, _ = progs.build(dict(n=n, ops=ops_), op_cache=cache)
+        before = _snapshot_ops(prog)
+        res, eng = _run_prog(sf, prog, "fock", 2.0, cutoff=D)
+        if before != _snapshot_ops(prog):
+            ctx.fail("shared-op:mutated", f"fock: running a program changed the user's MeasureFock objects ({before})", rp)
+            return
+        d = float(np.max(np.abs(sim.dm_of(res.state) - want)))
+        if d > 1e-7:
+            ctx.fail("shared-op:conditional:fock", f"fock: program {which} with MeasureFock commands {case['meas']} (shared objects): post state "
+                     f"differs from the sequential projection by {d:.3g}", rp)
+        row = [outcome[m] for m in sorted(outcome)]
+        if np.real(np.asarray(res.samples)).astype(int).tolist() != [row]:
+            ctx.fail("shared-op:samples:fock", f"fock: samples {np.asarray(res.samples).tolist()} for selects per mode {outcome}", rp)
+
+
+def gen_fock_shared_case(rng):
+    n = 4
+    def pre():
+        ops_ = []
+        for m in range(n):
+            ops_.append(dict(cls="Sgate", regs=[m], pars=[round(rng.uniform(0.25, 0.5), 3), sim.angle(rng)]))
+            ops_.append(dict(cls="Dgate", regs=[m], pars=[round(rng.uniform(0.2, 0.5), 3), sim.angle(rng)]))
+        for _ in range(3):
+            a, b = rng.sample(range(n), 2)
+            ops_.append(dict(cls="BSgate", regs=[a, b], pars=[round(rng.uniform(0.3, 1.2), 3), sim.angle(rng)]))
+        return ops_
+    modes = list(range(n))
+    rng.shuffle(modes)
+    v = [rng.randint(0, 1), rng.randint(0, 2)]
+    u = rng.randint(0, 1)
+    kind = rng.random()
+    if kind < 0.5:    # one single-mode object applied to two modes, another select in between
+        meas = [([modes[0]], [u]), ([modes[1]], [1 - u]), ([modes[2]], [u])]
+    else:             # one two-mode object (scrambled order) applied to two different pairs
+        meas = [([modes[0], modes[1]], v), ([modes[2], modes[3]], v)]
+    return dict(n=n, cutoff=4, prefixes=[pre(), pre()], meas=meas)
+
+
+# ------------------------------------------------------------------ Fock homodyne: Born pdf on the grid, history independence
+
+def oracle_fock_pdf(ctx, sf, rng):
+    """sampled MeasureHomodyne on the Fock back end, back-end level (so that the grid options can vary): the probabilities
+    handed to numpy.random.multinomial are the Born pdf of x_phi on the grid; the value returned is the grid point drawn;
+    the state afterwards is the one obtained by post-selecting that value.  Several configurations that differ only in
+    cutoff / grid are interleaved in one process (memoised grids / Hermite tables must not leak between them)."""
+    from strawberryfields.backends.fockbackend import FockBackend
+    base_nb, base_q = rng.choice([1501, 2001]), rng.choice([8, 10])
+    D1, D2 = rng.sample([5, 6, 7, 8], 2)
+    configs = [(D1, base_nb, base_q), (D2, base_nb, base_q), (D1, base_nb + 500, base_q), (D1, base_nb, base_q - 2), (D2, base_nb, base_q)]
+    for (D, nb, qmax) in configs:
+        n = rng.randint(1, 2)
+        mode = rng.randrange(n)
+        phi = rng.choice([0.0, math.pi / 2, round(rng.uniform(-3.0, 3.0), 3)])
+        prefix = []
+        for m in range(n):
+            prefix.append(dict(cls="Sgate", regs=[m], pars=[round(rng.uniform(0.1, 0.3), 3), sim.angle(rng)]))
+            prefix.append(dict(cls="Dgate", regs=[m], pars=[round(rng.uniform(0.1, 0.4), 3), sim.angle(rng)]))
+        if n == 2:
+            prefix.append(dict(cls="BSgate", regs=[0, 1], pars=[round(rng.uniform(0.4, 1.1), 3), sim.angle(rng)]))
+        spec = dict(n=n, ops=prefix)
+        case = dict(D=D, nb=nb, qmax=qmax, n=n, mode=mode, phi=phi, prefix=prefix)
+        rp = dict(kind="fockpdf", case=case)
+        ctx.oracle_cases += 1
+        ctx.count("oracle:fock-pdf", case, True)
+        pick = rng.random()
+
+        def chooser(pv, pick=pick):
+            c = np.cumsum(pv)
+            return int(np.searchsorted(c, 0.15 + 0.7 * pick))
+        try:
+            res0, rho0, eng = _fock_state_of(sf, spec, D, True)
+            rho1 = sim.reduced_dm(rho0, n, [mode])
+            script = m6.ScriptRNG(multinomial=chooser)
+            with script:
+                ret = eng.backend.measure_homodyne(phi, mode, num_bins=nb, max=qmax)
+            post = sim.dm_of(eng.backend.state())
+            # twin: post-select the returned value
+            _, _, eng2 = _fock_state_of(sf, spec, D, True)
+            eng2.backend.measure_homodyne(phi, mode, select=float(np.asarray(ret)[0, 0]), num_bins=nb, max=qmax)
+            post2 = sim.dm_of(eng2.backend.state())
+        except SFRaised as e:
+            ctx.fail("fock-pdf:raises", f"fock measure_homodyne (cutoff {D}, {nb} bins, max {qmax}): {e}", rp)
+            continue
+        except Exception as e:  # noqa: BLE001
+            ctx.fail("fock-pdf:raises", f"fock measure_homodyne (cutoff {D}, {nb} bins, max {qmax}) raised {type(e).__name__}: {e}", rp)
+            continue
+        calls = script.calls("multinomial")
+        if len(calls) != 1 or calls[0]["n"] != 1:
+            ctx.fail("fock-pdf:calls", f"{len(calls)} calls of multinomial for one homodyne measurement", rp)
+            continue
+        x, pdf = m6.fock_homodyne_pdf(rho1, phi, qmax, nb)
+        pv = calls[0]["pvals"]
+        if pv.shape != pdf.shape or float(np.max(np.abs(pv - pdf))) > 5e-9:
+            dd = "shape" if pv.shape != pdf.shape else f"{float(np.max(np.abs(pv - pdf))):.3g}"
+            ctx.fail("fock-pdf:born", f"fock MeasureHomodyne(phi={phi}) on mode {mode} of {n}, cutoff {D}, grid {nb} bins on [-{qmax}, {qmax}]: "
+                     f"probabilities handed to multinomial differ from the Born pdf on that grid ({dd})", rp)
+            continue
+        idx = chooser(pv)
+        if np.asarray(ret).shape != (1, 1) or abs(np.asarray(ret)[0, 0] - x[idx]) > 1e-12:
+            ctx.fail("fock-pdf:returned", f"bin {idx} drawn (x = {x[idx]}) but {np.asarray(ret).tolist()} returned", rp)
+        d = float(np.max(np.abs(post - post2)))
+        if d > 1e-9:
+            ctx.fail("fock-pdf:conditional", f"fock MeasureHomodyne sampled x = {x[idx]}: state afterwards differs from the state "
+                     f"post-selected on that value by {d:.3g}", rp)
+
+
+def oracle_multi_dyne_case(ctx, sf, case):
+    """general-dyne measurement of SEVERAL modes at circuit level (`GaussianModes.measure_dyne`, `BosonicModes.measure_dyne`;
+    not reachable through the front end): generator arguments = joint marginal + measurement covariance, state afterwards =
+    joint conditional state of the drawn point, measured modes vacuum"""
+    n, modes, backend = case["n"], case["modes"], case["backend"]
+    sigma, off = np.array(case["sigma"]), np.array(case["off"])
+    ref = sim.reference(dict(n=n, ops=case["prefix"]), 2.0)
+    rp = dict(kind="multidyne", case=case)
+    ctx.oracle_cases += 1
+    prog, _ = progs.build(dict(n=n, ops=case["prefix"]))
+    eng = sf.Engine(backend)
+    eng.run(prog)
+    script = m6.ScriptRNG(mvn_offset=off)
+    try:
+        with script:
+            ret = eng.backend.circuit.measure_dyne(sigma.copy(), list(modes), shots=1)
+        st = eng.backend.state()
+    except Exception as e:  # noqa: BLE001
+        ctx.fail(f"multi-dyne:raises:{backend}", f"{backend} circuit.measure_dyne(covmat, {modes}) raised {type(e).__name__}: {e}", rp)
+        return
+    Bx = list(modes) + [m + n for m in modes]
+    Ax = [i for i in range(2 * n) if i not in Bx]
+    mu_b, V_b = ref.mu[Bx], ref.V[np.ix_(Bx, Bx)]
+    calls = script.calls("multivariate_normal")
+    if len(calls) != 1 or not np.allclose(calls[0]["mean"], mu_b, atol=1e-8) or not np.allclose(calls[0]["cov"], V_b + sigma, atol=1e-8):
+        ctx.fail(f"multi-dyne:rng-args:{backend}", f"{backend} circuit.measure_dyne(covmat, {modes}) of {n}: generator received "
+                 f"{[(c['mean'].tolist(), c['cov'].tolist()) for c in calls]}, joint marginal + covmat is {(mu_b.tolist(), (V_b + sigma).tolist())}", rp)
+        return
+    vm = mu_b + off
+    W = np.linalg.inv(V_b + sigma)
+    out = sim.RefState(n)
+    out.V, out.mu = np.eye(2 * n), np.zeros(2 * n)
+    out.V[np.ix_(Ax, Ax)] = ref.V[np.ix_(Ax, Ax)] - ref.V[np.ix_(Ax, Bx)] @ W @ ref.V[np.ix_(Bx, Ax)]
+    out.mu[Ax] = ref.mu[Ax] + ref.V[np.ix_(Ax, Bx)] @ W @ (vm - mu_b)
+    got = _moments(sf, st, backend, 2.0)
+    d = sim.moment_dist(got, out.alpha_N_M())
+    if d > 1e-7 or not np.allclose(np.asarray(ret)[0], vm, atol=1e-9):
+        ctx.fail(f"multi-dyne:conditional:{backend}", f"{backend} circuit.measure_dyne(covmat, {modes}) of {n} with drawn point {vm.tolist()}: "
+                 f"returned {np.asarray(ret).tolist()}, state differs from the joint conditional state by {d:.3g}", rp)
+
+
+def gen_multi_dyne_case(rng, backend):
+    n = rng.randint(3, 4)
+    modes = scrambled(rng, n, rng.randint(2, n - 1))
+    k = len(modes)
+    return dict(n=n, modes=modes, backend=backend, prefix=_prefix(rng, n), sigma=m6.rand_cov(rng, 2 * k).tolist(),
+                off=[round(rng.uniform(-0.8, 0.8), 3) for _ in range(2 * k)])
+
+
 ORACLES = dict(dyne=oracle_dyne_case, sample=oracle_sample_case, cat=oracle_cat_case, fock=oracle_fock_case,
-               threshold=oracle_threshold_case)
+               threshold=oracle_threshold_case, shared=oracle_shared_case, fockshared=oracle_fock_shared_case,
+               multidyne=oracle_multi_dyne_case)
 
 
 def run_oracle_case(ctx, sf, kind, case):
@@ -1188,6 +1782,26 @@ def oracle(ctx, sf):
     for it in range(ctx.n(10, 100)):
         ctx.count("oracle:fock-layout", None)
         oracle_fock_layout(ctx, sf, rng)
+    for it in range(ctx.n(12, 120)):
+        backend = ["gaussian", "bosonic", "fock"][it % 3] if it % 6 != 5 else "fock"
+        backend = backend if backend != "fock" or it % 2 == 1 else "gaussian"
+        case = gen_holes_case(rng, backend, ["homodyne", "heterodyne"][(it // 3) % 2] if backend != "fock" else "homodyne")
+        ctx.count(f"oracle:holes:{case['kind']}:{backend}", case, True, sample=dict(n=case["n"], mode=case["mode"], backend=backend))
+        run_oracle_case(ctx, sf, "dyne", case)
+    for it in range(ctx.n(6, 60)):
+        case = gen_shared_case(rng, ["gaussian", "bosonic"][it % 2])
+        ctx.count(f"oracle:shared:{case['backend']}", case, True, sample=dict(meas=case["meas"]))
+        run_oracle_case(ctx, sf, "shared", case)
+    for it in range(ctx.n(4, 40)):
+        case = gen_fock_shared_case(rng)
+        ctx.count("oracle:shared:fock", case, True, sample=dict(meas=case["meas"]))
+        run_oracle_case(ctx, sf, "fockshared", case)
+    for it in range(ctx.n(1, 8)):
+        oracle_fock_pdf(ctx, sf, rng)
+    for it in range(ctx.n(8, 80)):
+        case = gen_multi_dyne_case(rng, ["gaussian", "bosonic"][it % 2])
+        ctx.count(f"oracle:multi-dyne:{case['backend']}", case, True, sample=dict(n=case["n"], modes=case["modes"]))
+        run_oracle_case(ctx, sf, "multidyne", case)
 
 
 # =================================================================== entry points
@@ -1197,9 +1811,12 @@ def run(ctx, sf):
     if ctx.proof_ok:
         corr_chop(ctx, B)
         corr_gauss(ctx, B, sf)
+        corr_gauss_multi(ctx, B)
         corr_bosonic(ctx, B, sf)
         corr_weights(ctx, B)
         corr_fock(ctx, B)
+        corr_fock_dist(ctx, B)
+        corr_sampler(ctx, B)
     corr_engine(ctx, B, sf)       # layout oracle always; model comparison only when the proof side is intact
     B.flush()
     oracle(ctx, sf)
@@ -1212,17 +1829,11 @@ def search(ctx, sf):
 def _replay_one(ctx, sf, rp):
     kind = rp.get("kind")
     if kind == "layout":
-        check_layout(ctx, sf, rp["spec"], rp["shots"], rp["backend"])
+        check_layout(ctx, sf, rp["spec"], rp["shots"], rp["backend"], shared=rp.get("shared", False))
     elif kind == "focklayout":
-        # deterministic: rebuild from the stored spec
-        ks = [o["pars"][0] for o in rp["spec"]["ops"] if o["cls"] == "Fock"]
-        try:
-            res, _, _ = _fock_state_of(sf, rp["spec"], 5)
-        except SFRaised as e:
-            ctx.fail("fock-measure:raises", f"Fock-state layout: {e}", rp)
-            return
-        if np.asarray(res.samples).tolist() != [ks]:
-            ctx.fail("samples-layout:rows-columns", "Fock-state layout", rp)
+        oracle_fock_layout(ctx, sf, None, spec=rp["spec"])
+    elif kind == "sampler":
+        sampler_one(ctx, None, rp["case"])
     elif kind in ORACLES:
         run_oracle_case(ctx, sf, kind, rp["case"])
 
